@@ -63,7 +63,7 @@ REMINIMISING = {"asymmetric_errors", "profile_sigma", "profile_cl_arrows", "prof
 
 def floors(tier):
     return {
-        "comparisons": {"drift.parameter_values": 150, "drift.cost": 150, "drift.parameter_errors": 150, "did_fit": 150, "fixed-limited": 150, "minimizer==graph": 150, "idempotent": 40, "drift.after-failed-query": 10},
+        "comparisons": {"drift.parameter_values": 150, "drift.cost": 150, "drift.parameter_errors": 150, "did_fit": 150, "fixed-limited": 150, "minimizer==graph": 150, "idempotent": 40, "drift.after-failed-query": 10, "minimizer==graph.after-limit_parameter": 60},
         "ops": [q for q in QUERIES],
         "reach": ["%s:%s" % a for a in ANCHORS],
         "sets": {"query_bigrams": 80},
@@ -412,6 +412,7 @@ def run_case(ctx, case):
     tmpdir = tempfile.mkdtemp(prefix="verif-c08-")
     nontrivial = bool(case["fixed"] or case["limited"])
     prev_q, prev_ans, prev_rng_state = None, None, None
+    nv0 = sum(ctx._wit_per_key.values())
     try:
         for i, q in enumerate(case["word"]):
             ctx.op(q)
@@ -504,6 +505,25 @@ def run_case(ctx, case):
             prev_q, prev_ans, prev_rng_state = q, ans, state_before
             if sum(ctx._wit_per_key.values()) != nv:
                 break
+        # ---- after the last query: a configuration call that makes the backend start over from the settings it keeps for itself
+        # (wide limits on a free parameter) must find those settings at the fit result, not where an excursion left them
+        cand = [n for n in free if n not in case["limited"]]
+        if cand and sum(ctx._wit_per_key.values()) == nv0:
+            n = cand[int(rng.integers(0, len(cand)))]
+            k = names.index(n)
+            w = 20.0 * sig[k] + 1.0
+            ctx.op("limit_parameter.after-queries")
+            try:
+                fit.limit_parameter(n, float(s0["p"][k] - w), float(s0["p"][k] + w))
+                pg = np.array(fit.parameter_values, dtype=float)
+                pm = np.array(fit._fitter.minimizer.parameter_values, dtype=float)
+                d = {"word": case["word"], "limited_afterwards": n}
+                devg = np.abs(pg - s0["p"]) / sig
+                ctx.check("drift.after-limit_parameter", bool(np.all(devg <= ptol)), lambda: dict(d, before=s0["p"], after=pg, deviation_in_sigma=devg, tolerance=ptol))
+                devm = np.abs(pm - pg) / sig
+                ctx.check("minimizer==graph.after-limit_parameter", bool(np.all(devm <= 1e-9)), lambda: dict(d, minimizer=pm, graph=pg, difference_in_sigma=devm))
+            except Exception:
+                ctx.violation(None, "limit_parameter.after-queries.no-exception", {"word": case["word"], "traceback": fmt_exc()})
     finally:
         shutil.rmtree(tmpdir, ignore_errors=True)
     return nontrivial
